@@ -296,6 +296,15 @@ theorem table_nopanic (reg : GenBank.Registry) (s : PS) (hs : Sorted s.rest.leng
   have := GenBank.table_safeS (L := L) reg s h
   exact ⟨this.1, this.2.srt⟩
 
+/-- non-vacuity of `table_nopanic`: a state in the middle of a record, with a saved position at the
+start of the FEATURES line, is sorted (the table parser itself runs `LocParse.loc`, which the
+kernel cannot evaluate; its results on concrete tables are correspondence-checked by `table.parse`) -/
+example : let rest := GenBank.bs "     source          1..4\n                     /mol_type=\"genomic DNA\"\n"
+    Sorted (PS.mk rest [GenBank.bs "FEATURES             Location/Qualifiers\n" ++ rest]).rest.length
+      (PS.mk rest [GenBank.bs "FEATURES             Location/Qualifiers\n" ++ rest]).stk := by
+  refine ⟨?_, trivial⟩
+  decide +kernel
+
 /-- `validateOrigin(p, length)` indexes `p` without bounds checks.  For a declared length below
 10^9 and a buffer of at least `toOriginLength(length)` bytes (the reader hands it exactly that
 many) no index is out of range, whatever the bytes are. -/
@@ -399,8 +408,8 @@ def sampleRecord : Bytes :=
 
 /-- non-vacuity: the sample record (fresh state: sorted, 88 bytes) is accepted with `Len() = 4`
 = the declared length; with one residue missing, one too many or a negative length the same text
-is an error value (class 1), not a panic and not a shorter sequence; a bare table is read by
-`table` -/
+is an error value (class 1), not a panic and not a shorter sequence; two records in one stream are
+both read -/
 example : Sorted (PS.mk sampleRecord []).rest.length (PS.mk sampleRecord []).stk ∧
     sampleRecord.length < 10 ^ 9 ∧
     ((GenBank.genbankParser GenBank.Registry.default).run' ⟨sampleRecord, []⟩).1.toOption.map
@@ -481,11 +490,13 @@ example : ((GenBank.genbankParser GenBank.Registry.default).run' ⟨sampleRecord
    parser inside the feature table has leaked frames, that position lies BEFORE the current one
    and the lines in between are read again, once per leaked frame.  The number of iterations is
    quadratic in the input size (`join(join(…(1^3` leaks one frame per five bytes).  On the real
-   code a 28 KB record of that shape takes 22 s, 280 KB about forty minutes.  Refuted below from a
+   code a 28 KB record of that shape takes 22 s (measured; ten times the size, a hundred times as
+   long).  Refuted below from a
    sorted state; from the FRESH state the model shows the same on
    `FEATURES⏎a 1⏎a join(×20 1^3⏎ (x⏎)×20 SOURCE      x⏎//⏎` (176 bytes, 422 iterations against a
    fuel of 354; evaluated with `#eval`, not a theorem: the kernel cannot run the well-founded
-   `LocParse.loc`).  Every such run ends in the error value, with or without fuel. -/
+   `LocParse.loc`).  On this family the model (out of fuel) and the code (hard failure at the last
+   reading of the SOURCE line) both end in an error. -/
 
 /-- the refuted full statement: from the sorted state `GenBank.rescanState` (37 bytes left: twenty
 empty lines and a SOURCE field without ORGANISM; three saved copies of that position) fuel
